@@ -152,8 +152,20 @@ def run(prog, check):
     fb = prog.classes.get('FixedMarginBusiness')
     if fb is not None:
         it = effects.run_unit(prog, fb)
-        for e in it.effects:
-            if e.kind == 'def' and e.phase == 'gen' and e.role == SELF and e.rhs is not None:
+        from ..ledger import expand_phi
+        import copy as _copy
+        cases = []
+        for e0 in it.effects:
+            if e0.kind == 'def' and e0.phase == 'gen' and e0.role == SELF and e0.rhs is not None:
+                # a right-hand side chosen by a condition (`eqn = a if c else b` before one definition) is the same as
+                # two definitions under the two outcomes
+                for extra, alt in expand_phi(e0.rhs):
+                    e1 = _copy.copy(e0)
+                    e1.rhs = alt
+                    e1.guards = tuple(e0.guards) + tuple(extra)
+                    cases.append(e1)
+        for e in cases:
+            if True:
                 is_dem = e.name.startswith_lit('DEM_')
                 is_prof = e.name.literal() == 'PROF'
                 if not (is_dem or is_prof):
